@@ -45,8 +45,15 @@ def main():
             bad = {k: v["error"] for k, v in rep.items() if not v["ok"]}
             if bad:
                 print("extraction problems (not fatal for setup):", bad)
-            r = subprocess.run(["lake", "build"], cwd=common.LEAN)
-            return 0 if r.returncode == 0 else 2
+            import glob
+
+            props = sorted(os.path.basename(f)[:-5] for f in glob.glob(os.path.join(common.LEAN, "RexModel", "Props", "C*.lean")))
+            r = subprocess.run(["lake", "build", "rexdriver"] + [f"RexModel.Props.{p}" for p in props], cwd=common.LEAN)
+            if r.returncode != 0:  # build what can be built; the individual checks report what is broken
+                for p in props:
+                    subprocess.run(["lake", "build", f"RexModel.Props.{p}"], cwd=common.LEAN, capture_output=True)
+                subprocess.run(["lake", "build", "rexdriver"], cwd=common.LEAN, capture_output=True)
+            return 0
         mod = importlib.import_module(f"props.{pid.lower()}")
         ob = common.prepare(pid)
         driver = common.Driver()
